@@ -621,6 +621,42 @@ func c04Exec(f []string) (ans string, alloc uint64) {
 			}
 		})
 		return fmt.Sprintf("%s groups=%d held=%d", strings.Join(outs, " "), groups, s.VerifC04Held()), alloc
+	case "hello":
+		// registration and re-key with hostile key material through the REAL Listener.talk (key parsing,
+		// ECDH): f[1] = "reg" (a well-formed SvHello whose key bytes are the given ones) or "rekey" (a
+		// registered peer sends a FlagCrypt packet whose decrypted body is the given bytes)
+		key := c04Hex(f[2])
+		env := c2.VerifC15NewEnv()
+		defer env.Close()
+		var id device.ID
+		id[0], id[5] = 7, 3
+		n := &com.Packet{ID: c2.SvHello, Device: id, Job: 9}
+		res := ""
+		alloc = c04Measure(func() {
+			if f[1] == "reg" {
+				c2.VerifC15HelloPayload(n, id, false)
+				n.Write(key)
+				o := env.Talk("A", n)
+				res = "reg " + c04Cls(o.Err)
+				return
+			}
+			c2.VerifC15HelloPayload(n, id, true)
+			if o := env.Talk("A", n); o.Err != nil {
+				res = "rekey setup-err"
+				return
+			}
+			v := &com.Packet{ID: 0x20, Device: id, Job: 10, Flags: com.FlagCrypt}
+			v.Write(key)
+			for _, t := range env.Table() {
+				if t.ID == id {
+					c2.VerifC04SessionCrypt(t.Ptr, v)
+				}
+			}
+			o := env.Talk("A", v)
+			res = "rekey " + c04Cls(o.Err)
+		})
+		env.Sync()
+		return res + fmt.Sprintf(" sessions=%d", len(env.Table())), alloc
 	case "procmulti":
 		x, _ := strconv.Atoi(f[1])
 		o := f[2] == "1"
